@@ -1070,6 +1070,13 @@ class DeepDiff(ResultDict, SerializationMixin, DistanceMixin, DeepDiffProtocol, 
         if isinstance(level.t2, Enum):
             t2_str = level.t2.value
 
+        if self.ignore_string_case:
+            # bytes.lower() only folds ASCII letters: fold the decoded texts
+            if isinstance(t1_str, str):
+                t1_str = t1_str.lower()
+            if isinstance(t2_str, str):
+                t2_str = t2_str.lower()
+
         if t1_str == t2_str:
             return
 
